@@ -174,11 +174,22 @@ func reduceHistory(base string, ops []Op) (out []Op, dropped int) {
 }
 
 func removableIndex(base string, ops []Op) int {
+	blank := base == "new" || base == "strict"
 	state := map[string]string{}
-	if base == "new" || base == "strict" {
+	if blank {
 		for k, v := range blankDefaults {
 			state[k] = v
 		}
+	}
+	// value of a key before the current call, if it is known
+	lookup := func(k string) (string, bool) {
+		if v, ok := state[k]; ok {
+			return v, v != "?"
+		}
+		if blank && strings.HasPrefix(k, "scheme:") {
+			return "absent", true // a blank policy has no scheme registered
+		}
+		return "", false
 	}
 	effs := make([][]effect, len(ops))
 	rules := make([]bool, len(ops))
@@ -191,17 +202,26 @@ func removableIndex(base string, ops []Op) int {
 			if !removable {
 				break
 			}
-			if x.kind == "set" {
-				if v, ok := state[x.key]; ok && v == x.val {
-					continue // redundant
-				}
+			before, known := lookup(x.key)
+			if x.kind == "set" && known && before == x.val {
+				continue // redundant
 			}
+			// dead: the next call that touches the key sets it; or (scheme registrations) the
+			// key goes from absent/any to any and the next toucher appends a custom check, which
+			// gives the one-element list either way
 			dead := false
-			for k := i + 1; k < len(ops) && !dead; k++ {
+		scan:
+			for k := i + 1; k < len(ops); k++ {
 				for _, y := range effs[k] {
-					if y.key == x.key && y.kind == "set" {
+					if y.key != x.key {
+						continue
+					}
+					if y.kind == "set" {
+						dead = true
+					} else if x.kind == "set" && x.val == "any" && known && (before == "absent" || before == "any") {
 						dead = true
 					}
+					break scan
 				}
 			}
 			if !dead {
@@ -215,7 +235,7 @@ func removableIndex(base string, ops []Op) int {
 			if x.kind == "set" {
 				state[x.key] = x.val
 			} else {
-				delete(state, x.key) // a registration list is not tracked as a value
+				state[x.key] = "?" // a registration list is not tracked as a value
 			}
 		}
 	}
@@ -702,6 +722,8 @@ func runC17(planJSON []byte) (*RunResult, error) {
 			curs[i] = c
 		}
 		switches, last := 0, -1
+		useBetween := Mix(pl.RunSeed, 0xbe7)%2 == 0
+		uses := 0
 		for step := 0; ; step++ {
 			var live []int
 			for i, c := range curs {
@@ -726,7 +748,14 @@ func runC17(planJSON []byte) (*RunResult, error) {
 			sr := c.order[c.pos]
 			c.pos++
 			c.steps[sr.op][sr.step]()
+			// a policy may be used between builder calls; that must not freeze or skew what later calls add
+			if useBetween && r.Bool(0.2) {
+				pr := probes[r.Intn(len(probes))]
+				guarded(func() { built[pick].P.Sanitize(string(pr)) })
+				uses++
+			}
 		}
+		res.count("sanitize_between_builder_calls", int64(uses))
 		res.count("builder_steps", int64(totalSteps))
 		res.count("instance_switches", int64(switches))
 		if want("interleave") {
